@@ -491,7 +491,7 @@ Section LogChain.
     unfold ret at 1. unfold bind at 1. unfold lift at 1.
     destruct (block_verify c b) as [[]|e|k] eqn:Ev; [|exact HL|exact HL].
     unfold block_verify in Ev.
-    destruct (Node.stake c (b_author b) =? 0); [discriminate|].
+    gunf; destruct (0 <? Node.stake c (b_author b)); [|discriminate]; cbn [negb] in *.
     destruct (negb _); [discriminate|].
     destruct (if qc_eqb (b_qc b) qc_genesis then ROk tt else qc_verify c (b_qc b)) as [[]|e|k] eqn:Eqv; try discriminate.
     assert (Gq : qc_good c me honest w0 s (b_qc b)) by (apply ($qc_good_of_verify); auto).
